@@ -300,6 +300,12 @@ func c10Run(rt *hookrt.Runtime, sc *c10Scenario, seed int64) {
 			case <-time.After(c10ObsWait):
 				note("Running() not closed")
 			}
+		case "poll_running":
+			select {
+			case <-router.Running():
+				rt.Stamp("api.running_obs")
+			default:
+			}
 		case "rh":
 			n := op.N
 			if n < 1 {
@@ -549,7 +555,7 @@ func c10Forced() []*c10Scenario {
 	add("before-run", []c10Op{opAdd(0, true), opRH(1, false, false), opH("stopped_get", 0), opH("stop", 0), op("add_dup"), op("run"), op("wait_running"), opH("started", 0), opH("stop", 0),
 		opH("wait_stopped", 0), op("wait_run")})
 	// failing Subscribe at Run and at RunHandlers
-	add("subscribe-fails-at-run", []c10Op{opAdd(0, true), {K: "add", Pub: -1, Hon: true, Fail: true}, op("run"), op("wait_run"), op("run2")})
+	add("subscribe-fails-at-run", []c10Op{opAdd(0, true), {K: "add", Pub: -1, Hon: true, Fail: true}, op("run"), op("wait_run"), op("poll_running"), op("run2"), opH("stopped_get", 1)})
 	add("subscribe-fails-at-runhandlers", []c10Op{opAdd(0, true), op("run"), op("wait_running"), {K: "add", Pub: 1, Hon: true, Fail: true}, opRH(1, false, false), opRH(2, false, false), opH("probe", 0),
 		op("close"), op("wait_run")})
 	// subscription ended by the environment; subscriber ignoring its context + Close
@@ -617,6 +623,16 @@ func c10Random(rng *rand.Rand, id int) *c10Scenario {
 	}
 	for i, n := 0, rng.Intn(4); i < n; i++ {
 		addOp()
+	}
+	if rng.Intn(10) == 0 {
+		// a handler whose Subscribe fails: Run returns the error
+		ops = append(ops, c10Op{K: "add", Pub: -1, Hon: true, Fail: true})
+		if rng.Intn(2) == 0 {
+			ops = append(ops, opAdd(-1, true))
+		}
+		ops = append(ops, op("run"), op("wait_run"), op("poll_running"), op("run2"), opRH(1, false, false), op("poll_running"))
+		sc.Ops = ops
+		return sc
 	}
 	if rng.Intn(5) == 0 {
 		ops = append(ops, opRH(1, false, false))
@@ -723,7 +739,7 @@ func c10Random(rng *rand.Rand, id int) *c10Scenario {
 		ops = append(ops, op("close"))
 	}
 	_ = cancelled
-	ops = append(ops, op("wait_run"))
+	ops = append(ops, op("wait_run"), op("poll_running"))
 	if rng.Intn(3) == 0 {
 		ops = append(ops, op("run2"))
 	}
